@@ -144,13 +144,31 @@ def contourDp (t : Tol) (ds cs : List Pt) (must : List Bool) (lb : Nat) :
   if n < 2 then ([], (List.range n).map fun i => if i > 0 then some (i - 1) else none)
   else dpOuter t ds cs must lb n n 0 [] []
 
-/-- follow `chain` from `i` down: the "assemble solution" loop of the rotated branch. -/
-def walkChain (chain : List (Option Nat)) : Nat → Nat → List Nat
-  | 0, i => [i]
-  | fuel + 1, i =>
-    match chain.getD i none with
-    | none => [i]
-    | some j => i :: walkChain chain fuel j
+/-- `usize::checked_sub` -/
+def checkedSub (a b : Nat) : Option Nat := if a < b then none else some (a - b)
+
+/-- `Some(idx) > lim` in Rust's `Option<usize>` order -/
+def gtLim (lim : Option Nat) (idx : Nat) : Bool :=
+  match lim with
+  | none => true
+  | some l => decide (idx > l)
+
+/-- follow `chain` downwards from `i` while `i > lim` (Rust `Option<usize>` order: `None` is
+below every `Some`).  One function for the two "assemble solution" loops of
+`iup_contour_optimize`:
+* rotated branch: `loop { encode.insert(i); i = match chain[i] { Some(v) => v, None => break } }`
+  is `lim = none` (runs while `i` is `Some`);
+* doubled branch: `while i > start.checked_sub(n) { solution.insert(idx % n); i = chain[idx] }`.
+Returns the visited raw indices (descending) and the final `i`. -/
+def walkLim (chain : List (Option Nat)) (lim : Option Nat) :
+    Nat → Option Nat → List Nat × Option Nat
+  | 0, i => ([], i)
+  | _ + 1, none => ([], none)
+  | fuel + 1, some idx =>
+    if gtLim lim idx then
+      let r := walkLim chain lim fuel (chain.getD idx none)
+      (idx :: r.1, r.2)
+    else ([], some idx)
 
 def rotateRight (l : List α) (k : Nat) : List α :=
   if l.length = 0 then l else
@@ -159,22 +177,6 @@ def rotateRight (l : List α) (k : Nat) : List α :=
 
 def maxTrue (l : List Bool) : Nat :=
   (List.range l.length).foldl (fun acc i => if l.getD i false then i else acc) 0
-
-/-- the doubled-contour branch's per-`start` walk: `while i > start.checked_sub(n)`;
-`lim = start - n` as an `Option` (`none` when `start < n`).  Returns the visited indices
-(mod `n`) and the final `i`. -/
-def walkDoubled (chain : List (Option Nat)) (n : Nat) (lim : Option Nat) :
-    Nat → Option Nat → List Nat → List Nat × Option Nat
-  | 0, i, acc => (acc, i)
-  | fuel + 1, i, acc =>
-    match i with
-    | none => (acc, i)
-    | some idx =>
-      let gt := match lim with
-        | none => true
-        | some l => decide (idx > l)
-      if gt then walkDoubled chain n lim fuel (chain.getD idx none) ((idx % n) :: acc)
-      else (acc, i)
 
 /-- `ot_round` of an integer-valued f64 to `i16` (`as i16` saturates). -/
 def otRound16 (x : Int) : Int := if x > 32767 then 32767 else if x < -32768 then -32768 else x
@@ -197,7 +199,7 @@ def contourEncode (t : Tol) (ds cs : List Pt) : Option (List Bool) :=
         let cs' := rotateRight cs mid
         let must' := rotateRight must mid
         let dp := contourDp t ds' cs' must' (lookback n)
-        let enc := walkChain dp.2 n (n - 1)
+        let enc := (walkLim dp.2 none (2 * n + 2) (some (n - 1))).1
         let encB := (List.range n).map fun i => enc.contains i
         if (List.range n).all (fun i => !must'.getD i false || encB.getD i false) then
           -- rotate the solution back: idx ↦ (idx + n - mid) % n
@@ -207,11 +209,11 @@ def contourEncode (t : Tol) (ds cs : List Pt) : Option (List Bool) :=
         let dp := contourDp t (ds ++ ds) (cs ++ cs) must (lookback n)
         let starts := (List.range (dp.1.length - 1 - (n - 1))).map (· + (n - 1))
         let r := starts.foldl (fun (acc : Option (List Nat) × Int) start =>
-          let lim : Option Nat := if start < n then none else some (start - n)
-          let w := walkDoubled dp.2 n lim (2 * n + 2) (some start) []
+          let lim : Option Nat := checkedSub start n
+          let w := walkLim dp.2 lim (2 * n + 2) (some start)
           if w.2 == lim then
             let cost := dp.1.getD start 0 - (if n < start then dp.1.getD (start - n) 0 else 0)
-            if cost ≤ acc.2 then (some w.1, cost) else acc
+            if cost ≤ acc.2 then (some (w.1.map (· % n)), cost) else acc
           else acc) (none, (n + 1 : Int))
         match r.1 with
         | none => none
@@ -255,6 +257,37 @@ def deltaOptimize (t : Tol) (ds cs : List Pt) (ends : List Nat) : OptResult :=
     let expected := (match ends.getLast? with | some v => v + 1 | none => 0) + 4
     if nc ≠ expected then .err "CoordEndsMismatch"
     else optimizeLoop t ds cs (ends ++ [nc - 4, nc - 3, nc - 2, nc - 1]) 0 []
+
+/-! ## the specification's inference of omitted deltas (OpenType gvar, "Inferred deltas for
+un-referenced point numbers"), stated for one closed contour of `n` points: the references of
+an omitted point are the nearest retained points before and after it in cyclic point order. -/
+
+/-- cyclic predecessor / successor of point `k` in a contour of `n` points -/
+def predC (n k : Nat) : Nat := if k = 0 then n - 1 else k - 1
+def succC (n k : Nat) : Nat := if k + 1 ≥ n then 0 else k + 1
+
+/-- first retained point at or (cyclically) before `p`, looking at most `fuel` points -/
+def prevFrom (enc : List Bool) (n : Nat) : Nat → Nat → Option Nat
+  | 0, _ => none
+  | f + 1, p => if enc.getD p false then some p else prevFrom enc n f (predC n p)
+
+/-- first retained point at or (cyclically) after `p` -/
+def nextFrom (enc : List Bool) (n : Nat) : Nat → Nat → Option Nat
+  | 0, _ => none
+  | f + 1, p => if enc.getD p false then some p else nextFrom enc n f (succC n p)
+
+def prevReq (enc : List Bool) (n k : Nat) : Option Nat := prevFrom enc n n (predC n k)
+def nextReq (enc : List Bool) (n k : Nat) : Option Nat := nextFrom enc n n (succC n k)
+
+/-- the delta the specification assigns to point `k` of the contour `(cs, ds)` when only the
+deltas flagged in `enc` are stored: the stored delta for a retained point; for an omitted point
+the per-axis interpolation between the nearest retained neighbours (one retained point: both
+neighbours are that point, which makes every point move by its delta; none: zero). -/
+def inferSpec (cs ds : List Pt) (enc : List Bool) (k : Nat) : (Int × Int) × (Int × Int) :=
+  if enc.getD k false then (((getP ds k).1, 1), ((getP ds k).2, 1)) else
+  match prevReq enc ds.length k, nextReq enc ds.length k with
+  | some a, some b => iupPoint (getP cs a) (getP ds a) (getP cs b) (getP ds b) (getP cs k)
+  | _, _ => ((0, 1), (0, 1))
 
 /-! ## reader side: FreeType-style inference (skrifa `interpolate_deltas`), exact arithmetic -/
 
